@@ -525,6 +525,21 @@ impl Scenario for C04Native {
 					"local mk(n) = [mk(n + 1)[0] + 1]; mk(0)[0]",
 					"local f(x) = std.foldl(function(a, b) a + f(b), [x + 1], 0); f(0)",
 					"local f(x) = [y + 1 for y in [f(x + 1)]][0]; f(0)",
+					"local a = [a]; a",
+					"local a = [a]; '' + a",
+					"local o = { x: o }; std.toString(o)",
+					"local a = [a]; '%s' % [a]",
+					"local o = { x: [o] }; error o",
+					"local o = { x: o }; std.manifestYamlDoc(o)",
+					"local a = [a]; std.manifestJsonEx(a, ' ')",
+					"local a = [a], b = [b]; a == b",
+					"local o = { x: o }; std.manifestPython(o)",
+					"local o = { x: o }; std.manifestToml(o)",
+					"local a = [a]; std.flattenDeepArray(a)",
+					"local o = { x: o }; std.prune(o)",
+					"local o = { x: o }; std.mergePatch(o, o)",
+					"local a = [a]; std.sort([a, a])",
+					"local a = [a]; a < a",
 					"local o = { x: self.y + 1, y: super_.z, local super_ = { z: o2.x }, }, o2 = { x: f(0) }, f(n) = f(n + 1) + 1; o.x",
 				]);
 				// the error of a cut-off is cloned into every level's field cache on the way out
